@@ -33,7 +33,7 @@ TOKENS = (
     + ["db", "d0", "d1", "d5", "stack", "Setting", "On", "Temperature", "Pressure", "Mode", "Activate", "Open", "Ratio", "Average", "Sum", "Minimum",
        "Maximum", "Occupied", "Quantity", "ArcFurnace", "Device", "Devices", "Stack", "ConsoleLED1x2", "GasSensors", "Batteries", "ref_id", "HASH", "STR",
        "LogicType", "DisplayMode", "String", "yield_", "sleep", "hcf", "sqrt", "min", "max", "abs", "floor", "select", "push", "pop", "peek", "sp", "ra",
-       "constexpr", "emit_code", "s", "l", "lb", "sb", "move", "alias", "define", "library", "__name__", '"__main__"', "pytrapic", "compact", "no-",
+       "constexpr", "emit_code", "s", "l", "lb", "sb", "move", "alias", "define", "library", "__name__", '"__main__"', "# pytrapic:", "compact,", "no-", "(note)",
        "inline_functions", "tail_call_optimization", "functions_using_push_pop", "remove_labels", '"StructureBattery"', '"Hi"', "len", "print", "open", "eval"]
 )
 assert len(TOKENS) <= 256, len(TOKENS)
@@ -82,6 +82,10 @@ def main():
 
     def judge(case):
         state["n"] += 1
+        # the case about to run: if the transpiler never comes back (a hang inside C code cannot be interrupted from
+        # Python) the parent process finds it here when its own deadline runs out
+        with open(os.path.join(outdir, "current.json"), "w") as f:
+            json.dump(case, f, default=str)
         try:
             c10.check_case(case, stats)
         except Violation as v:
